@@ -182,7 +182,7 @@ def render_eq(eq: Eq, lay: Layout = PLAIN) -> str:
         rhs = render(eq.rhs, lay)
     s = f'{lhs}{lay.eq_space}={lay.eq_space}{rhs}'
     if lay.comment:
-        s += '  # ' + 'note #1) comment = {x} <y> [1] (see # more'
+        s += '  # ' + 'note #1) it\'s a "quoted" `tick` comment = {x} <y> [1] Zq9[-14] + Zq8[+13] (see # more'
     return s
 
 
@@ -192,7 +192,7 @@ def render_script(eqs: Sequence[Eq], lay: Layout = PLAIN) -> str:
         if lay.blank_lines and i:
             lines.append('')
         if lay.comment and i == 0:
-            lines.append('# leading comment line (1 of 2')
+            lines.append('# leading comment line (1 of 2, don\'t read `this` Zq7[-15]')
         lines.append(render_eq(q, lay))
     return '\n'.join(lines)
 
@@ -458,6 +458,9 @@ def small_programs() -> List[List[Eq]]:
         # identifiers that are soft keywords or built-in names are ordinary variable names (only reserved words are keywords)
         [Eq(V_('match'), Bin('+', V_('case', -1), Bin('*', P_('type'), V_('print'))))],
         [Eq(V_('type'), Bin('-', V_('match', 1), E_('case', -2)))],
+        # an offset on the left-hand side is an offset of the script like any other (LAGS / LEADS, default range, graph node)
+        [Eq(V_('K', 1), Bin('+', V_('K'), V_('DK')))],
+        [Eq(V_('H', -2), Bin('-', V_('H', -1), V_('C'))), Eq(V_('C'), Bin('*', P_('a'), V_('H', -2)))],
     ]
     return progs
 
